@@ -142,3 +142,12 @@ macro_rules! gv_cover {
         }
     }};
 }
+
+/// Assertion attributed to a property: the description carries the property id so that the driver
+/// counts a failure only for the property it belongs to (harnesses are shared between properties).
+#[macro_export]
+macro_rules! pa {
+    ($p:literal, $c:expr) => {
+        assert!($c, concat!("[", $p, "] ", stringify!($c)))
+    };
+}
